@@ -533,6 +533,43 @@ Fixpoint mentions (x : str) (e : expr) : bool :=
   end.
 (* F4 (= C01-D22b): the duplicated variable `dup` is relabelled dup_v1 while the operator also owns a user variable dup_v1 *)
 Definition no_label_chain (dup : str) (e : expr) : bool := negb (mentions dup e && mentions (dup ++ s2l "_v1") e).
+(* F5: two summands q*B^a and q*B^b (same cofactor q, same base B, different exponents): sympy's subs() finds the
+   smaller product inside the larger one when the parser replaces sub-expressions by graph symbols *)
+Fixpoint expr_eqb (a b : expr) {struct a} : bool :=
+  match a, b with
+  | Num i f, Num i' f' => str_eqb i i' && str_eqb f f'
+  | Var x, Var y => str_eqb x y
+  | Neg x, Neg y => expr_eqb x y
+  | Add x1 x2, Add y1 y2 | Sub x1 x2, Sub y1 y2 | Mul x1 x2, Mul y1 y2 | Div x1 x2, Div y1 y2 | Pow x1 x2, Pow y1 y2 =>
+      expr_eqb x1 y1 && expr_eqb x2 y2
+  | Call f xs, Call g ys =>
+      str_eqb f g && (fix all2 (l : list expr) (m : list expr) {struct l} : bool :=
+                        match l, m with [] , [] => true | x :: l', y :: m' => expr_eqb x y && all2 l' m' | _, _ => false end) xs ys
+  | _, _ => false
+  end.
+Fixpoint sum_terms (neg : bool) (e : expr) : list (bool * expr) :=
+  match e with
+  | Add a b => sum_terms neg a ++ sum_terms neg b
+  | Sub a b => sum_terms neg a ++ sum_terms (negb neg) b
+  | Neg a => sum_terms (negb neg) a
+  | _ => [(neg, e)]
+  end.
+Definition shared_pair (t u : bool * expr) : bool :=
+  match snd t, snd u with
+  | Mul q (Pow B (Num a [])), Mul q' (Pow B' (Num a' [])) =>
+      Bool.eqb (fst t) (fst u) && expr_eqb q q' && expr_eqb B B' && negb (str_eqb a a')
+  | _, _ => false
+  end.
+Fixpoint no_shared_in (l : list (bool * expr)) : bool :=
+  match l with [] => true | t :: r => negb (existsb (shared_pair t) r) && no_shared_in r end.
+Fixpoint no_shared_cofactor_powers (e : expr) : bool :=
+  no_shared_in (sum_terms false e) &&
+  match e with
+  | Num _ _ | Var _ | Call _ _ => true
+  | Neg a => no_shared_cofactor_powers a
+  | Add a b | Sub a b | Mul a b | Div a b | Pow a b => no_shared_cofactor_powers a && no_shared_cofactor_powers b
+  end.
+Definition guard_shared (s : str) : bool := match parse s with Some e => no_shared_cofactor_powers e | None => true end.
 Definition guard_divisor (s : str) : bool := match parse s with Some e => no_call_in_divisor e | None => true end.
 Definition guard_chain (dup s : str) : bool := match parse s with Some e => no_label_chain dup e | None => true end.
 
